@@ -58,6 +58,47 @@ fn expr_ok<F: PrimeField>(sym: &RefCS<F>, e: &Expr) -> bool {
     sym.refs_in_range(e) && go(sym, e)
 }
 
+/// A constraint may name a commitment or gate that comes into existence later (hand-built
+/// handle, forward reference): its raw references are checked against the FINAL counts.
+fn constrain_ok<F: PrimeField>(sym: &RefCS<F>, e: &Expr, fin: (usize, usize)) -> bool {
+    fn raw_ok(k: &VK, fin: (usize, usize)) -> bool {
+        match k {
+            VK::L(i) | VK::R(i) | VK::O(i) => *i < fin.0,
+            VK::C(i) => *i < fin.1,
+            VK::One => true,
+        }
+    }
+    fn strip(e: &Expr, fin: (usize, usize), ok: &mut bool) -> Expr {
+        match e {
+            Expr::Raw(k) => {
+                *ok &= raw_ok(k, fin);
+                Expr::K(S::U(1))
+            }
+            Expr::Add(a, b) => Expr::add(strip(a, fin, ok), strip(b, fin, ok)),
+            Expr::Sub(a, b) => Expr::sub(strip(a, fin, ok), strip(b, fin, ok)),
+            Expr::Neg(a) => Expr::neg(strip(a, fin, ok)),
+            Expr::Scale(a, c) => Expr::scale(strip(a, fin, ok), c.clone()),
+            Expr::Terms(ts, f) => Expr::Terms(
+                ts.iter()
+                    .filter(|(t, _)| match t {
+                        TermVar::Raw(k) => {
+                            *ok &= raw_ok(k, fin);
+                            false
+                        }
+                        _ => true,
+                    })
+                    .cloned()
+                    .collect(),
+                *f,
+            ),
+            other => other.clone(),
+        }
+    }
+    let mut ok = true;
+    let rest = strip(e, fin, &mut ok);
+    ok && expr_ok(sym, &rest)
+}
+
 fn val_ok<F: PrimeField>(sym: &RefCS<F>, v: &Val) -> bool {
     match v {
         Val::Lit(_) => true,
@@ -69,6 +110,24 @@ fn val_ok<F: PrimeField>(sym: &RefCS<F>, v: &Val) -> bool {
 /// All references in range at the time of use (execution order)?
 pub fn valid_statement(st: &Statement) -> bool {
     type F = ark_secq256k1::Fr;
+    let fin = {
+        let mut fsym = RefCS::<F>::new(false);
+        let mut p2 = false;
+        for at in exec_order(st) {
+            if at.1.is_some() && !p2 {
+                fsym.begin_phase2();
+                p2 = true;
+            }
+            match get_op(st, at) {
+                Op::Commit { .. } | Op::Alloc(_) | Op::AllocMul(_) => gen::sym_apply(&mut fsym, get_op(st, at)),
+                Op::Mul(..) => {
+                    let _ = fsym.allocate_multiplier(None);
+                }
+                _ => {}
+            }
+        }
+        (fsym.gates, fsym.m)
+    };
     let mut sym = RefCS::<F>::new(false);
     let mut phase2 = false;
     for at in exec_order(st) {
@@ -81,7 +140,7 @@ pub fn valid_statement(st: &Statement) -> bool {
             Op::Alloc(Some(v)) => val_ok(&sym, v),
             Op::AllocMul(Some((l, r))) => val_ok(&sym, l) && val_ok(&sym, r),
             Op::Mul(l, r) => expr_ok(&sym, l) && expr_ok(&sym, r),
-            Op::Constrain(e) => expr_ok(&sym, e),
+            Op::Constrain(e) => constrain_ok(&sym, e, fin),
             Op::OverwriteGate { gate, l, r, o } => *gate < sym.gates && val_ok(&sym, l) && val_ok(&sym, r) && val_ok(&sym, o),
             Op::Challenge { .. } => at.1.is_some(),
             Op::Commit { .. } => at.1.is_none(),
